@@ -164,6 +164,7 @@ type Value struct {
 	Text  string // spelling for VInt/VDouble ("" = canonical)
 	Dbl   float64
 	Lit   string // AST-level text of the literal
+	Quote byte   // literal: 0 = layout decides, else the quote character to use
 	B     bool
 	Const *Const
 	Enum  *Enum
@@ -256,9 +257,10 @@ const (
 )
 
 type Tok struct {
-	Kind TokKind
-	Text string
-	Alts []string // alternative equivalent spellings (numbers)
+	Kind  TokKind
+	Text  string
+	Alts  []string // alternative equivalent spellings (numbers)
+	Quote byte     // literals: forced quote character (0 = the layout decides)
 }
 
 type tw struct {
@@ -415,7 +417,7 @@ func (w *tw) value(v *Value) {
 		}
 		w.toks = append(w.toks, Tok{Kind: TWord, Text: s})
 	case VLit:
-		w.lit(v.Lit)
+		w.toks = append(w.toks, Tok{Kind: TLit, Text: v.Lit, Quote: v.Quote})
 	case VBoolIdent, VConstRef, VEnumRef, VRawIdent:
 		w.word(IdentText(w.cur, v))
 	case VList:
@@ -624,7 +626,11 @@ func RenderTokens(toks []Tok, l Layout) (text string, gaps, seps, lits, nums int
 				continue
 			}
 		case TLit:
-			s = QuoteLit(t.Text, l.Quote(lits))
+			q := l.Quote(lits)
+			if t.Quote != 0 {
+				q = t.Quote
+			}
+			s = QuoteLit(t.Text, q)
 			lits++
 		default:
 			s = t.Text
@@ -668,7 +674,11 @@ func Render(f *File) string {
 			}
 			continue
 		case TLit:
-			s = QuoteLit(t.Text, '"')
+			q := byte('"')
+			if t.Quote != 0 {
+				q = t.Quote
+			}
+			s = QuoteLit(t.Text, q)
 		default:
 			s = t.Text
 		}
